@@ -115,6 +115,13 @@ def patterns(chk, ms):
     return tot
 
 
+def ties(chk):
+    """f32 tie witnesses (two items, same bin, same value) streamed in both orders, item-wise and as slices"""
+    tf = os.path.join(chk.wd, "trace_ties.ndjson")
+    run_dm(chk, ["ties", "out=" + tf, "seed=%d" % chk.seed, "pairs=%d" % (3 if chk.tier == "quick" else 10)], tf)
+    return validate_dens(chk, tf, "f32-ties")
+
+
 def big(chk, thorough):
     of = os.path.join(chk.wd, "big.json")
     rc, out = harness("dm", ["big", "out=" + of, "seed=%d" % chk.seed, "thorough=%d" % (1 if thorough else 0)],
@@ -137,6 +144,7 @@ def c04_part(chk, quick):
     build_harness("dm")
     replay_schedules(chk, "c04", nitems=3, ninst=2, depth=3, maxslice=3, stride=25 if quick else 3, ms=[1, 2, 3, 5, 16], reinit=False)
     patterns(chk, [3, 4] if quick else [2, 3, 4, 5, 6])
+    ties(chk)
 
 
 def c13_part(chk, quick):
